@@ -143,9 +143,111 @@ def comps_tok(comps):
     return "/".join(hx(c) for c in comps) if comps else "."
 
 
+class Rel:
+    """a search-path element spelled relative to the current directory (".", "./", "sub", "../p0" ...); [comps] = the
+    root-relative components of the directory it denotes (what the model is given)"""
+
+    def __init__(self, spelling, comps):
+        self.spelling, self.comps = spelling, comps
+
+
+def rel_to(cwd, spelling):
+    comps = list(cwd)
+    for c in spelling.split("/"):
+        if c in ("", "."):
+            continue
+        if c == "..":
+            comps = comps[:-1]
+        else:
+            comps.append(c)
+    return Rel(spelling, comps)
+
+
+def elem_tok(c, dots):
+    if isinstance(c, Rel):
+        return "r%s:%s%s" % (hx(c.spelling), comps_tok(c.comps), "+" if dots else "")
+    return comps_tok(c) + ("+" if dots else "")
+
+
+def path_tok(path):
+    toks = []
+    for c, dots in path:
+        t = elem_tok(c, dots)
+        if t not in toks:                 # AddPath keeps one element per spelling
+            toks.append(t)
+    return ";".join(toks) if toks else "-"
+
+
 def ff_case(tree, cwd, path, name):
-    p = ";".join(comps_tok(c) + ("+" if dots else "") for c, dots in path) if path else "-"
-    return "findfile %s %s %s %s" % (tree_tok(tree), comps_tok(cwd), p, hx(name))
+    return "findfile %s %s %s %s" % (tree_tok(tree), comps_tok(cwd), path_tok(path), hx(name))
+
+
+def rs_case(tree, cwd, path, names):
+    return "readseq %s %s %s %s" % (tree_tok(tree), comps_tok(cwd), path_tok(path), ",".join(hx(n) for n in names))
+
+
+HERE = [".", "./", "./.", "../cwd", ".//"]          # spellings of the current directory (cwd = <root>/cwd)
+
+
+def gen_here(tier, rnd):
+    """the current directory as an element of the search path -- spelled ".", "./", "./.", "../cwd", absolute, with
+    and without "/..." -- put there beforehand or by an earlier Read of a file of the working directory; lookups by
+    file name (foo.yang) and by module name (foo); 0, 1, 2 dated candidates and/or the exact file in the current
+    directory, a later directory that has candidates too; histories of one to three Reads on one Modules"""
+    cwd = ["cwd"]
+    cases = []
+    cwd_sets = [[], ["foo@2019-12-31.yang"], ["foo@2019-12-31.yang", "foo@2021-06-15.yang"], ["foo.yang"],
+                ["foo.yang", "foo@2021-06-15.yang"], ["foobar@2022-01-01.yang"], ["foo@2020-1-01.yang", "foo@2020-01-01.yang"],
+                ["foo@2020-01-01.yang", "foobar.yang", "fo@2025-01-01.yang"]]
+    later_sets = [[], ["foo.yang"], ["foo@2023-01-01.yang"]]
+    lookups = ["foo.yang", "foo", "foobar.yang", "foo@2020-01-01.yang", "foo@2020-01-01"]
+    firsts = (["a.yang"], ["a"], ["b"], ["c.yang"], ["zz.yang"], ["a.yang", "a"], [])
+    li = 0
+    for cs in cwd_sets:
+        for ls in later_sets:
+            li += 1
+            full = tier != "quick"
+            sub = [("sub", [("foo@2001-01-01.yang", None)])] if len(cs) % 2 else []
+            tree = [("cwd", [(n, None) for n in cs] + [("a.yang", None), ("b@2018-01-01.yang", None)] + sub),
+                    ("p0", [(n, None) for n in ls]), ("p1", [("c.yang", None), ("foo@2000-01-01.yang", None)])]
+            # (1) the current directory named on the path: every spelling, before / after / between the other directories
+            # (quick tier: ".", one other spelling and one of absolute / absent per layout, rotating)
+            for sp in (HERE + [None, "abs"]) if full else [".", HERE[1 + li % 4], (None, "abs")[li % 2]]:
+                here = [] if sp is None else [((cwd if sp == "abs" else rel_to(cwd, sp)), False)]
+                for path in (here + [(["p0"], False)], [(["p0"], False)] + here, here, [(["p1"], False)] + here + [(["p0"], False)]):
+                    for name in lookups if full else ["foo.yang", lookups[1 + li % 4]]:
+                        cases.append(ff_case(tree, cwd, path, name))
+                if sp not in (None, "abs") and (full or sp != "."):
+                    cases.append(ff_case(tree, cwd, [(rel_to(cwd, sp), True), (["p0"], False)], "foo.yang"))
+                    cases.append(ff_case(tree, cwd, [(rel_to(cwd, "sub"), False), (rel_to(cwd, sp), False)], "foo.yang"))
+            # (2) put there by an earlier Read: by file name / module name from the current directory, through the path
+            # (adds nothing), a failing one, the same file again
+            paths = ([], [(["p0"], False)], [(["p1"], False), (["p0"], False)], [(rel_to(cwd, "."), False), (["p0"], False)],
+                     [(["p0"], False), (rel_to(cwd, "./"), False)])
+            for fi, first in enumerate(firsts):
+                if not full and (fi + li) % 2:
+                    continue
+                for pi, path in enumerate(paths):
+                    if not full and (pi + fi + li) % 2:
+                        continue
+                    cases.append(rs_case(tree, cwd, path, first + ["foo.yang"]))
+                    cases.append(rs_case(tree, cwd, path, first + ["foobar.yang", "foo.yang", "foo"] if (pi + li) % 2 else first + ["foo"]))
+    # random: layouts over the core names, 1..4 Reads
+    names = ["foo.yang", "foo.yang", "foo", "foobar.yang", "foobar", "a.yang", "a", "fo.yang", "foo@2020-01-01.yang", "zz"]
+    for _ in range(300 if tier == "quick" else 20000):
+        pool = CORE + ["a.yang", "a@2017-01-01.yang", "fo@2025-01-01.yang"]
+        tree = [("cwd", rand_dir(rnd, 1, pool))]
+        for i in range(rnd.randint(1, 2)):
+            tree.append(("p%d" % i, rand_dir(rnd, rnd.choice([0, 1]), pool)))
+        path = []
+        for _ in range(rnd.randint(0, 3)):
+            r = rnd.random()
+            if r < 0.45:
+                path.append((rel_to(cwd, rnd.choice(HERE + ["sub", "./sub", "../p0", "../p1"])), rnd.random() < 0.2))
+            else:
+                path.append(([rnd.choice(["p0", "p1", "cwd", "nonexist"])], rnd.random() < 0.3))
+        cases.append(rs_case(tree, cwd, path, [rnd.choice(names) for _ in range(rnd.randint(1, 4))]))
+    return cases
 
 
 CORE = ["foo.yang", "foo@2020-01-01.yang", "foo@2019-12-31.yang", "foo@2021-06-15.yang",
@@ -392,8 +494,12 @@ def gen_family(rnd, rich):
     return items, augments
 
 
-def split_family(rnd, items, augments):
-    """-> parts: list of dict(items, augments, includes) ; part 0 is the module, parts 1.. the submodules"""
+def split_family(rnd, items, augments, vis11=False):
+    """-> parts: list of dict(items, augments, includes) ; part 0 is the module, parts 1.. the submodules.
+    vis11: typedefs and identities stay in the part they were dealt to, wherever they are used from (the module
+    itself, a sibling submodule that is not included by the user): every part of a module sees the top-level typedefs
+    and identities of the whole module (RFC 7950 5.1, what Type.resolve / the identity dictionary implement); a
+    submodule then often has NO include statement of its own.  Groupings always follow the RFC 6020 rule."""
     k = rnd.randint(1, 3)
     where = {}                       # index of the statement -> part
     stm = [("item", n) for n in items] + [("aug", a) for a in augments]
@@ -423,6 +529,8 @@ def split_family(rnd, items, augments):
             if x == 0:
                 continue
             for r in refs[i]:
+                if vis11 and r[0] != "grouping":
+                    continue
                 d = defs.get(r)
                 if d is not None and d != i and (where[d] == 0 or where[d] < x):
                     where[d] = x
@@ -431,6 +539,8 @@ def split_family(rnd, items, augments):
     for i, (kind, n) in enumerate(stm):
         (parts[where[i]]["items"] if kind == "item" else parts[where[i]]["augments"]).append(n)
         for r in refs[i]:
+            if vis11 and r[0] != "grouping":
+                continue
             d = defs.get(r)
             if d is not None and where[d] not in (0, where[i]):
                 parts[where[i]]["includes"].add(where[d])
@@ -454,7 +564,7 @@ def split_family(rnd, items, augments):
             parts[rnd.choice(lower)]["includes"].add(y)
     for x in range(k + 1):
         for y in range(x + 1, k + 1):
-            if rnd.random() < 0.15:
+            if rnd.random() < (0.08 if vis11 else 0.15):
                 parts[x]["includes"].add(y)
     return parts
 
@@ -645,15 +755,76 @@ def enum_include_orders():
     return fams
 
 
+def enum_visibility():
+    """module m and submodules a, b, c (every acyclic include graph among them, the module listing all three or
+    relying on a nested include for one): the module and every submodule define a typedef (told apart by its range), a
+    typedef built on the next part's one and an identity; EVERY part refers to the typedefs and identities of ALL four
+    parts -- unprefixed and with the module's prefix, in a top-level leaf, below a container, inside a local grouping
+    and as a typedef's base -- whether or not it includes the part that defines them.  A submodule has 0, 1 or 2
+    include statements of its own, related or unrelated to what it names (every part of a module sees the top-level
+    typedefs and identities of the whole module)."""
+    subs = ["a", "b", "c"]
+    allp = ["m"] + subs
+    pairs = [(x, y) for x in subs for y in subs if x != y]
+    rng = dict(m="1..10", a="11..20", b="21..30", c="31..40")
+
+    def closure(edges, x):
+        seen, todo = [], [x]
+        while todo:
+            u = todo.pop()
+            for (p_, q_) in edges:
+                if p_ == u and q_ not in seen:
+                    seen.append(q_)
+                    todo.append(q_)
+        return seen
+    fams = []
+    for mask in range(1 << len(pairs)):
+        edges = [pairs[i] for i in range(len(pairs)) if mask >> i & 1]
+        if any(x in closure(edges, x) for x in subs):
+            continue
+        lists = [list(subs)]
+        for drop in subs:
+            rest = [x for x in subs if x != drop]
+            if any(drop in closure(edges, x) for x in rest):
+                lists.append(rest)
+        for li, incl in enumerate(lists):
+            def items_of(x):
+                nxt = allp[(allp.index(x) + 1 + li) % 4]
+                pf = lambda j, n: (PFX + ":" + n) if (j + mask + li) % 2 else n
+                its = [("typedef", "t" + x, 'int32 { range "%s"; }' % rng[x]),
+                       ("typedef", "u" + x, pf(0, "t" + nxt)),
+                       ("identity", "i" + x, [pf(1, "i" + nxt)] if x != "c" else [])]
+                leaves = [("leaf", "l%s%s" % (x, y), pf(j, "t" + y), None, None, None, None) for j, y in enumerate(allp)]
+                deep = [("leaf", "d%s%s" % (x, y), pf(j + 1, "u" + y), None, None, None, None) for j, y in enumerate(allp)]
+                refs = [("leaf", "r%s%s" % (x, y), "identityref { base %s; }" % pf(j, "i" + y), None, None, None, None)
+                        for j, y in enumerate(allp)]
+                its.append(("grouping", 200 + allp.index(x), "h" + x,
+                            [("leaf", "g%s%s" % (x, y), pf(j, "t" + y), None, None, None, None) for j, y in enumerate(allp)]))
+                its += leaves[:2]
+                its.append(("container", "c" + x, None, leaves[2:] + [("container", "in", None, deep + refs), ("uses", "h" + x)]))
+                return its
+            parts = {x: (items_of(x), [y for (p_, y) in edges if p_ == x]) for x in subs}
+            mitems = items_of("m")
+            split = [_mod_dict(MOD, None, [MOD + x for x in incl], mitems, [])]
+            for x in subs:
+                split.append(_mod_dict(MOD + x, MOD, [MOD + y for y in parts[x][1]], parts[x][0], []))
+            its = list(mitems)
+            for y in subs:
+                its += parts[y][0]
+            fams.append(dict(rich=True, vis11=True, split=split, unsplit=[_mod_dict(MOD, None, [], its, [])]))
+    return fams
+
+
 def gen_include(tier, rnd):
     """-> list of dict(rich, split, unsplit)"""
-    fams = enum_include_orders()
+    fams = enum_include_orders() + enum_visibility()
     for i in range(250 if tier == "quick" else 8000):
         rich = i % 3 != 0
+        vis11 = rich and i % 2 == 0
         items, augments = gen_family(rnd, rich)
-        parts = split_family(rnd, items, augments)
+        parts = split_family(rnd, items, augments, vis11)
         split, unsplit = family_schemas(parts)
-        fams.append(dict(rich=rich, split=split, unsplit=unsplit))
+        fams.append(dict(rich=rich, vis11=vis11, split=split, unsplit=unsplit))
     return fams
 
 
@@ -674,6 +845,10 @@ def run_include(res, tier, rnd, stats):
         stats["include_" + a["status"]] = stats.get("include_" + a["status"], 0) + 1
         nested = any(m["belongs"] and m["includes"] for m in f["split"])
         stats["include_nested"] += 1 if nested else 0
+        if f.get("vis11"):
+            stats["include_modulewide_visibility"] = stats.get("include_modulewide_visibility", 0) + 1
+            if any(m["belongs"] and not m["includes"] and (m.get("extra") or m["body"]) for m in f["split"]):
+                stats["include_submodule_without_includes"] = stats.get("include_submodule_without_includes", 0) + 1
         diff = None
         if a["status"] != b["status"]:
             diff = "verdict: split %s %s, unsplit %s %s" % (a["status"], a.get("errors", a.get("where", "")), b["status"],
@@ -977,7 +1152,7 @@ def judge(res, c, g, m, stats):
         if lst(go.get("f", "-"), ",") != lst(spec["sf"], ","):
             res.violation("registry lookup differs from the specification: %s impl=%s spec=%s" %
                           (c[:300], go.get("f"), spec["sf"]), dict(kind="oracle", case=c, impl=g, model=m))
-    elif t[0] == "findtwice":
+    elif t[0] in ("findtwice", "readseq"):
         return                      # model-vs-implementation only
     elif t[0] == "findfile":
         if not in_claim_name(t[4]):
@@ -1036,7 +1211,8 @@ def run(res, tier, seed, proof):
     rnd = random.Random(seed)
     reg = gen_registry(tier, rnd)
     ff = gen_findfile(tier, rnd)
-    cases = reg + ff
+    here = gen_here(tier, random.Random(seed + 1))
+    cases = reg + ff + here
     go, ml = run_both(cases)
     stats = dict(registry_outside_claim=0, findfile_outside_claim=0, dots_hits=0, perm_groups=0, perm_pairs=0)
     mism = 0
@@ -1065,6 +1241,11 @@ def run(res, tier, seed, proof):
         k = "none" if g == "-" else ("name.yang" if g.endswith(hx("foo.yang")) else "dated")
         outs[k] = outs.get(k, 0) + 1
     rej = sum(g.split()[0].count("0") for g in go[:len(reg)] if g.startswith("v="))
+    hg = go[len(reg) + len(ff):]
+    stats["here_cases"] = len(here)
+    stats["here_histories"] = sum(1 for c in here if c.startswith("readseq"))
+    stats["here_found_dated"] = sum(1 for g in hg for x in g.split(",") if "40" in x.split("/")[-1])
+    stats["here_not_found"] = sum(1 for g in hg for x in g.split(",") if x == "-")
     cov = dict(
         evaluations=len(cases) + n_inc,
         distinct_nontrivial=len({c for c in cases if nontrivial(c)}) + len({l for l in inc_lines[0::2]}),
@@ -1078,13 +1259,17 @@ def run(res, tier, seed, proof):
              "identityref / typedef-typed leaves, augments, a duplicate name now and then) split at random over 1..3 "
              "submodules with nested includes vs. the unsplit module, both run through Process on the implementation "
              "(verdict, module tree with resolved types, identity value lists compared), a third of them typedef/identity-"
-             "free and also run on the core model; non-trivial = two headers of one kind and name / two entries sharing "
+             "free and also run on the core model, half of the others with module-wide visibility of typedefs/identities "
+             "(definitions in the module or a sibling, the user including nothing or something unrelated), plus all 25 include "
+             "graphs over three submodules where each of the four parts names the typedefs and identities of all four; "
+             "the current directory on the search path: 24 layouts (0/1/2 dated candidates, exact file, later directories) x "
+             "spellings x positions x file-name / module-name lookups, Read histories of 1..4 steps; non-trivial = two headers of one kind and name / two entries sharing "
              "the stem / every include family"
              % ("" if tier == "quick" else " and 5"),
         mismatches=mism,
         distribution=dict(registry_cases=len(reg), findfile_cases=len(ff), rejected_adds=rej, findfile_results=outs, **stats),
         samples=[reg[len(reg) // 2], reg[-7], ff[100], ff[-3]],
-        sample_observations=[go[len(reg) // 2], go[len(reg) - 7], go[len(reg) + 100], go[-3]],
+        sample_observations=[go[len(reg) // 2], go[len(reg) - 7], go[len(reg) + 100], go[len(reg) + len(ff) - 3]],
     )
     assumptions = [
         "module names contain no '@' (YANG identifiers); registry cases with such names are only compared model-vs-implementation",
@@ -1094,7 +1279,12 @@ def run(res, tier, seed, proof):
         "sort.Strings as modelled",
         "part (c): the Coq theorems cover direct includes on the core model (no typedefs/identities: C09, C11); nested "
         "includes, typedefs, identities and the final forest are covered by the split-vs-unsplit comparison on the "
-        "implementation only; a submodule names only what it or a submodule it includes declares (RFC 6020 visibility)",
+        "implementation only (an implementation-side oracle for 'as if they were written there'); GROUPINGS: a submodule "
+        "names only what it or a submodule it includes declares (RFC 6020 visibility); typedefs and identities: every "
+        "part of a module sees those of the whole module (RFC 7950), submodules with no / an unrelated include included",
+        "the current directory as a search-path element (spelled '.', './', './.', '../cwd', absolute, with '/...') and "
+        "histories of Modules.Read on one Modules (the implicit '.' element) are compared model-vs-implementation "
+        "(Model/File.v Read_all); every file of a history holds a module with a revision of its own",
     ]
     return cov, assumptions
 
